@@ -74,9 +74,9 @@ def make_variants(rng, spec, n, feat=None, allow_file_variants=True, prefer_file
             f = copy.deepcopy((root.get('file_state') or {}).get(fname) or spec['files'][fname])
             changed = False
             for part, pd in f['parts'].items():
-                keys = [k for k, v in pd.get('values', {}).items() if not (isinstance(v, dict) and 'class' in v)]
+                keys = [k for k, v in pd.get('values', {}).items() if not (isinstance(v, dict) and 'class' in v and v['class'].endswith(('LabObjSet', 'LabChainObj')))]
                 if keys:
-                    longs = [k_ for k_ in keys if isinstance(pd['values'][k_], (list, str)) and len(pd['values'][k_]) > 100]
+                    longs = [k_ for k_ in keys if (isinstance(pd['values'][k_], (list, str)) and len(pd['values'][k_]) > 100) or (isinstance(pd['values'][k_], dict) and 'class' in pd['values'][k_])]
                     k = rng.choice(longs) if longs and rng.random() < 0.8 else rng.choice(keys)
                     pd['values'][k] = S.same_type_value(rng, pd['values'][k])
                     changed = True
@@ -99,9 +99,9 @@ def make_variants(rng, spec, n, feat=None, allow_file_variants=True, prefer_file
             f = copy.deepcopy(spec['files'][fname])
             changed = False
             for part, pd in f['parts'].items():
-                keys = [k for k, v in pd.get('values', {}).items() if not (isinstance(v, dict) and 'class' in v)]
+                keys = [k for k, v in pd.get('values', {}).items() if not (isinstance(v, dict) and 'class' in v and v['class'].endswith(('LabObjSet', 'LabChainObj')))]
                 if keys:
-                    longs = [k_ for k_ in keys if isinstance(pd['values'][k_], (list, str)) and len(pd['values'][k_]) > 100]
+                    longs = [k_ for k_ in keys if (isinstance(pd['values'][k_], (list, str)) and len(pd['values'][k_]) > 100) or (isinstance(pd['values'][k_], dict) and 'class' in pd['values'][k_])]
                     k = rng.choice(longs) if longs and rng.random() < 0.8 else rng.choice(keys)
                     pd['values'][k] = S.same_type_value(rng, pd['values'][k])
                     changed = True
